@@ -245,7 +245,8 @@ RULES_N = op('mark_heads_by_rules', preset='negra')
 RULES_P = op('mark_heads_by_rules', preset='ptb')
 RANDOM_PROGRAMS = {
     'C12': [[ROOT_ATTACH]],
-    'C05': CROSS + [[RULES_N, NEGRA, SPLIT, RAISE], [RULES_P, SPLIT, RAISE], [NEGRA, BIN, NEGRA, SPLIT, RAISE]],
+    'C05': CROSS + [[RULES_N, NEGRA, SPLIT, RAISE], [RULES_P, SPLIT, RAISE], [NEGRA, BIN, NEGRA, SPLIT, RAISE],
+            [RULES_N, SPLIT, RAISE], [RULES_N, RULES_P, SPLIT, RAISE], [RULES_P, RULES_N, SPLIT, RAISE]],
     'C13': PUNCTP + PUNCTP_TOP,
     'C14': [[NEGRA, BIN], [NEGRA, BINB], [COL, UNC], [NEGRA, BIN, COL, UNC]],
     'C15': [[NEGRA], [RULES_P, NEGRA], [RULES_N, NEGRA], [NEGRA, RULES_P], [NEGRA, BIN, NEGRA], [RULES_P, RULES_N],
@@ -256,7 +257,8 @@ RANDOM_PROGRAMS = {
     'C04': [[ROOT_ATTACH, NEGRA, SPLIT, RAISE, TOP], [ROOT_ATTACH, RULES_N, NEGRA, SPLIT, RAISE], [RULES_P, NEGRA, BIN],
             [NEGRA, BIN, NEGRA, SPLIT, RAISE], [ROOT_ATTACH, PVL, NEGRA, BIN, COL, UNC],
             [PRT, NEGRA, BIN], [ROOT_ATTACH, PSY, PVL, TOP, COL], [NEGRA, SPLIT, RAISE, BIN, COL, UNC],
-            [TOP, ROOT_ATTACH, PRT, COL, UNC], [ROOT_ATTACH, PSYR, NEGRA, SPLIT, RAISE, PRT]],
+            [TOP, ROOT_ATTACH, PRT, COL, UNC], [ROOT_ATTACH, PSYR, NEGRA, SPLIT, RAISE, PRT],
+            [ROOT_ATTACH, RULES_P, SPLIT, RAISE], [RULES_N, SPLIT, RAISE, BIN]],
 }
 
 
@@ -290,7 +292,9 @@ def random_cases(prop, tier, seed, mods):
                                if prop not in ('C15', 'C05', 'C04')
                                else ('S', 'NP', 'VP', 'NP-1', 'CO', 'DL', 'PRN', 'INTJ', 'PP', 'FRAG'),
                                edges=('--', 'HD', 'NK'),
-                               words=wordf, tags=('T', 'PRELS'), tokedges=('--', 'HD', 'NK'), chain=0.4)
+                               words=wordf,
+                               tags=('T', 'PRELS', 'NN', 'VVFIN', 'VBD', 'IN') if prop in ('C15', 'C05', 'C04') else ('T', 'PRELS'),
+                               tokedges=('--', 'HD', 'NK'), chain=0.4)
         for x in T['nodes']:
             x['a']['lab'] = list(x['a']['lab'])
         fix_traces(T)
